@@ -331,6 +331,6 @@ package boltz
 //@ func ValidateSymbolsArePublic
 //@   props C20
 //@   requires query != nil
-//@   modifies visited, symSeen, visitorState, any publicSymbolValidator.err
+//@   modifies visited, symSeen, visitorState, any publicSymbolValidator.err, any ast.SymbolValidator.*
 //@   ensures[visits-query] visited[query]
 //@   lensures[reports] result == visitor.err
